@@ -44,6 +44,8 @@ theorem fam_go (H : Pres cfg P Q) (now : Int) (c : Coll) (query proj : Val) (upd
     · split
       · exact H.weaken _ hP1
       · rename_i u
+        split
+        · exact H.weaken _ hP1
         have hQ2 := H.upd now c1 query u true false hP1
         generalize applyUpdateColl cfg now c1 query u true false = x at hQ2
         obtain ⟨c2, r⟩ := x
@@ -74,6 +76,8 @@ theorem fam_go (H : Pres cfg P Q) (now : Int) (c : Coll) (query proj : Val) (upd
         cases r3 <;> exact hQ3
       | some u =>
         simp only
+        split
+        · exact H.weaken _ hP2
         have hQ3 := H.upd now c2 q u upsert false hP2
         generalize applyUpdateColl cfg now c2 q u upsert false = z at hQ3
         obtain ⟨c3, r3⟩ := z
@@ -92,7 +96,9 @@ theorem fam_pres (H : Pres cfg P Q) (now : Int) (c : Coll) (query proj : Val) (u
   split
   · split
     · exact H.weaken _ hP
-    · exact fam_go H now c query proj _ upsert sort after hP
+    · split
+      · exact H.weaken _ hP
+      · exact fam_go H now c query proj _ upsert sort after hP
   · exact fam_go H now c query proj _ upsert sort after hP
 
 /-! ### one request of a bulk -/
